@@ -418,7 +418,7 @@ fn gen_cell(rng: &mut Rng, serial: &mut u64, allow_err: bool) -> Data {
         }),
         5 => Data::String(format!("{}.5", k)),
         6 => Data::String(["TRUE", "true", "True", "FALSE", "false", "False"][(k % 6) as usize].to_string()),
-        7 => Data::String(format!("text {}", k)),
+        7 => Data::String(if k % 5 == 0 { String::new() } else { format!("text {}", k) }),
         8 => Data::Bool(k % 2 == 0),
         9 | 10 => Data::Empty,
         11 => Data::DateTime(ExcelDateTime::new(40000.0 + k as f64, ExcelDateTimeType::DateTime, false)),
